@@ -651,6 +651,56 @@ def r05_12(chk, P):
     return n
 
 
+def r05_13(chk, P):
+    chk.rule('R05.13', 'the residue back ends that skip unused channels agree on how many vectors follow: wherever a function of res0.c '
+             'compacts its vector array in place (`in[used++]=in[i]` over i < ch) and hands the array on, the count handed on with it '
+             'is the compaction counter and not the original channel count -- in the writer (res1_forward, res1_class) and in the '
+             'readers (res0_inverse, res1_inverse) alike.  The partition walk interleaves the classification words of exactly that '
+             'many vectors: a reader that walks `ch` vectors where the writer wrote `used` runs out of step in every packet in '
+             'which some, but not all, channels of the submap are silent')
+    n = 0
+    for F in P.functions():
+        if not F.file.endswith('lib/res0.c') or F.entry is None:
+            continue
+        comp = []
+        for e in F.nodes('assign'):
+            nd = F.ex[e]
+            l = F.ex[F.strip_casts(nd['c'][0])]
+            if nd['op'] != '=' or l['k'] != 'sub':
+                continue
+            base = F.ex[F.strip_casts(l['c'][0])]
+            ix = F.ex[F.strip_casts(l['c'][1])]
+            if base['k'] == 'ref' and base['decl'].get('kind') == 'param' and ix['k'] == 'un' and ix['op'] in ('post++', 'pre++'):
+                u = F.ex[F.strip_casts(ix['c'][0])]
+                r = F.ex[F.strip_casts(nd['c'][1])]
+                if u['k'] == 'ref' and u['decl'].get('kind') == 'var' and r['k'] == 'sub' and \
+                        F.ex[F.strip_casts(r['c'][0])].get('decl', {}).get('id') == base['decl']['id']:
+                    comp.append((e, base['decl']['id'], u['decl']['id']))
+        if not comp:
+            continue
+        e0, arr, u = comp[0]
+        # the bound of the compaction loop
+        bound = None
+        for c, pol in common.controlling_conditions(F, e0):
+            cn = F.ex[F.strip_casts(c)]
+            if cn['k'] == 'bin' and cn['op'] == '<' and pol:
+                b = F.ex[F.strip_casts(cn['c'][1])]
+                if b['k'] == 'ref' and b['decl'].get('kind') == 'param':
+                    bound = b['decl']['id']
+        for c in F.calls():
+            args = F.ex[c].get('c', [])
+            ids = [F.ex[F.strip_casts(a)].get('decl', {}).get('id') if F.ex[F.strip_casts(a)]['k'] == 'ref' else None for a in args]
+            if arr not in ids:
+                continue
+            ok = u in ids and (bound is None or bound not in ids)
+            n += 1
+            chk.ob('R05.13', F.name, f'compacted-count-handed-on:{common.call_name(F, c)}', ok, F.where(c),
+                   f'`{F.s(c)[:70]}`: the compacted array travels with the compaction counter' if ok else
+                   f'`{F.s(c)[:70]}`: the array was compacted to the channels in use but the count handed on is the original channel '
+                   'count: the callee walks vectors that are not there')
+    return n
+
+
 def run(chk, P):
     r05_8(chk, P)
     chk.floor('R05.8', 2)
@@ -671,6 +721,8 @@ def run(chk, P):
     chk.floor('R05.9', 2)
     r05_10(chk, P)
     chk.floor('R05.10', 1)
+    r05_13(chk, P)
+    chk.floor('R05.13', 4)
     r05_12(chk, P)
     chk.floor('R05.12', 8)
     chk.notes.append(f'R05.1: {npairs} writer/reader pairs ({[f"{a}<->{b}" for a, b in layout.PAIRS + layout.slot_pairs(P)]}), '
